@@ -99,3 +99,47 @@ def brew_and_confidence(path, dest, learner="linear", folds=3, seed=0, test_fdr=
         return out
     out["files"] = read_results(dest)
     return out
+
+
+class _CliSpy:
+    def __init__(self):
+        self.tag = None
+        self.brew_result = None
+        self.brew_kwargs = None
+
+    def log(self):
+        return recorder.snapshot(self.tag) if self.tag else []
+
+
+import contextlib  # noqa: E402
+
+
+@contextlib.contextmanager
+def cli_recording(features, learner="linear"):
+    """While active, the `mokapot` command-line entry point builds the recording model instead of its built-in
+    PercolatorModel (same train_fdr / max_iter / direction / override / rng), and what brew() returned to it is kept.
+    Nothing inside brew / Model / assign_confidence is touched: the CLI's own argument plumbing stays under test."""
+    mokapot = core.import_mokapot()
+    cli = core.mk("mokapot.mokapot")
+    spy = _CliSpy()
+    feats = list(features)
+    rid_col = feats.index("rid") if "rid" in feats else -1
+    orig_model, orig_brew = cli.PercolatorModel, cli.brew
+
+    def factory(train_fdr=0.01, max_iter=10, direction=None, override=False, rng=None, **kw):
+        spy.tag = recorder.new_run_tag()
+        est = recorder.make_estimator(learner, rid_col=rid_col, seed=int(rng or 0), tag=spy.tag)
+        return mokapot.Model(est, scaler=recorder.PassThroughScaler(), train_fdr=train_fdr, max_iter=max_iter,
+                             direction=direction, override=override, rng=rng)
+
+    def brew_spy(*a, **kw):
+        spy.brew_kwargs = dict(kw)
+        out = orig_brew(*a, **kw)
+        spy.brew_result = out
+        return out
+
+    cli.PercolatorModel, cli.brew = factory, brew_spy
+    try:
+        yield spy
+    finally:
+        cli.PercolatorModel, cli.brew = orig_model, orig_brew
